@@ -15,7 +15,7 @@ from lib.common import log
 SPEC = common.SPEC / "pool"
 REPO_SRC = ["src/threading/Thread.cpp", "src/threading/Runnable.cpp"]
 FLAGS = ["-O0", "-fno-inline", "-g", "-UNDEBUG", "-fno-lifetime-dse"]
-P_EVENTS = {"Payload", "Begin", "StartCall", "StartRet", "Invoke", "InvokeEnd", "InvokeTrap", "RunBegin", "RunEnd", "Destroy", "FinSeen", "JoinRet",
+P_EVENTS = {"Payload", "Restart", "Begin", "StartCall", "StartRet", "Invoke", "InvokeEnd", "InvokeTrap", "RunBegin", "RunEnd", "Destroy", "FinSeen", "JoinRet",
             "Done", "Deadlock", "Crash", "TooLong"}
 ASSUMPTIONS = [
     "A2: vsched's model of pthread_create/join is faithful; the new thread's first instruction is a scheduling point",
@@ -74,10 +74,26 @@ def check(pid, tier, seed):
                     lines.append("S t=%d" % (1 if g.edges[ei][2].startswith("T") else 0))
                 lines.append("E")
                 meta[xid] = path
+    # the same Thread object started a second time after join(): every complete behaviour of the two-round graph
+    mcs.append(common.model_check(SPEC, "ThreadStart.tla", "MC_ThreadStart_restart.cfg", "ThreadStart (two rounds on one Thread object)"))
+    dot2, dst2 = common.dump_graph(SPEC, "ThreadStart.tla", "MC_ThreadStart_restart.cfg", "ThreadStart-restart")
+    g2 = common.load_graph(dot2)
+    paths2 = all_paths(g2)
+    meta2 = {}
+    for pi, path in enumerate(paths2):
+        for kind in range(4):
+            args = (pi + kind) % 3
+            xid = "r%d-k%d-a%d" % (pi, kind, args)
+            lines.append("X %s mode=script kind=%d args=%d form=%d rounds=2" % (xid, kind, args, (pi + kind) % 2))
+            for ei in path:
+                # the new thread of round r is vsched thread r
+                lines.append("S t=%d" % (g2.states[g2.edges[ei][0]]["round"] if g2.edges[ei][2].startswith("T") else 0))
+            lines.append("E")
+            meta2[xid] = path
     n_y = {"quick": 240, "thorough": 200000}[tier]
     rnd = random.Random("thr-%s" % seed)
     for i in range(n_y):
-        lines += ["X y%d mode=random kind=%d args=%d form=%d seed=%d" % (i, i % 4, (i // 4) % 3, (i // 12) % 2, rnd.randrange(1, 2 ** 31)), "E"]
+        lines += ["X y%d mode=random kind=%d args=%d form=%d rounds=%d seed=%d" % (i, i % 4, (i // 4) % 3, (i // 12) % 2, 2 if i % 5 == 3 else 1, rnd.randrange(1, 2 ** 31)), "E"]
     res = common.run_harness(exe, "\n".join(lines) + "\n")
     # 'poll' scenario on the access-instrumented build
     plines = []
@@ -87,7 +103,7 @@ def check(pid, tier, seed):
     # on this build every atomic operation can be made a scheduling point (ay=1): the new thread may then run, and even
     # finish, while the starter is still inside start()
     for i in range(n_poll * 2):
-        plines += ["X ay%d mode=random kind=%d args=%d form=%d ay=1 accy=%d seed=%d" % (i, i % 4, (i // 4) % 3, (i // 12) % 2, 0 if i % 2 else 1500, rnd.randrange(1, 2 ** 31)), "E"]
+        plines += ["X ay%d mode=random kind=%d args=%d form=%d rounds=%d ay=1 accy=%d seed=%d" % (i, i % 4, (i // 4) % 3, (i // 12) % 2, 2 if i % 7 == 5 else 1, 0 if i % 2 else 1500, rnd.randrange(1, 2 ** 31)), "E"]
     pres = common.run_harness(race_harness(), "\n".join(plines) + "\n")
     for xid, recs in pres.items():
         res[xid] = recs
@@ -117,10 +133,28 @@ def check(pid, tier, seed):
                     d = "step %d (%s): thread locations %s, ThreadStart says %s" % (i, g.edges[ei][2], steps[i]["pc"], exp)
             if d:
                 drifts.append(d)
+    for xid, path in meta2.items():
+        recs = res.get(xid, [])
+        steps = [r for r in recs if r.get("e") == "Step"]
+        d = next((r.get("why") for r in recs if r.get("e") == "Drift"), None)
+        for i, ei in enumerate(path):
+            if d or i >= len(steps):
+                d = d or "only %d of %d steps executed" % (len(steps), len(path))
+                break
+            st = g2.states[g2.edges[ei][1]]
+            # thread 1 stays in the scheduler's table as finished once round 2 has begun; tpc keeps "exited" until the next start()
+            if st["round"] == 1:
+                exp = [PC_S[st["spc"]]] + ([PC_T[st["tpc"]]] if st["tpc"] != "none" else [])
+            else:
+                exp = [PC_S[st["spc"]], "FIN"] + ([PC_T[st["tpc"]]] if st["tpc"] != "none" and st["spc"] != "init" else [])
+            if steps[i]["pc"] != exp:
+                d = "restart step %d (%s): thread locations %s, ThreadStart says %s" % (i, g2.edges[ei][2], steps[i]["pc"], exp)
+        if d:
+            drifts.append(d)
     if drifts:
-        log("DRIFT property=%s %d of %d replayed behaviours deviate from ThreadStart; first: %s" % (pid, len(drifts), len(meta), drifts[0]))
+        log("DRIFT property=%s %d of %d replayed behaviours deviate from ThreadStart; first: %s" % (pid, len(drifts), len(meta) + len(meta2), drifts[0]))
     acc, rej, tst = tracecheck.validate(SPEC, "ThreadStartTrace.tla", "ThreadStartTrace.cfg", execs)
-    log("[%s] %d behaviours x 12 variants + %d random: %d executions, %d rejected" % (pid, len(paths), n_y, len(execs), len(rej)))
+    log("[%s] %d behaviours x 12 variants + %d two-round behaviours x 4 + %d random: %d executions, %d rejected" % (pid, len(paths), len(paths2), n_y, len(execs), len(rej)))
     for x, info in rej.items():
         nx = info.get("next") or {}
         b = info["events"][0]
@@ -132,7 +166,7 @@ def check(pid, tier, seed):
            "exhaustive": not drifts, "evaluations": len(execs), "distinct_nontrivial": distinct,
            "rule": "every complete behaviour of TLC's graph of ThreadStart x {function pointer, small closure, 256-byte closure, Runnable} x {0,1,2 lvalue arguments}, "
                    "plus seeded random schedules; distinct = distinct observable event sequences",
-           "edge_cover": {"behaviours": len(paths), "drift": drifts[:3]}, "model_checks": mcs, "graph_dump": dst, "trace_validation": [tst]}
+           "edge_cover": {"behaviours": len(paths), "two_round_behaviours": len(paths2), "drift": drifts[:3]}, "model_checks": mcs, "graph_dump": dst, "trace_validation": [tst]}
     rc = verdict.finish()
     common.write_evidence(pid, tier, seed, "model_checking", cov, ASSUMPTIONS, time.time() - t0, len(verdict.violations))
     return rc
